@@ -191,7 +191,9 @@ func Delay[V any](f lazy[V]) Seq[V] {
 // the stmts following the body run, Continue / Return pass through
 func Breakable[V any](body Seq[V]) Seq[V] {
 	return func(c *co[V], k cont[V]) {
+		vtrace("brk", c, 0)
 		body(c, func(t contType, v V) {
+			vtrace("kbrk", c, int(t))
 			if t == kBreak {
 				k(kNormal, zero[V]())
 			} else {
